@@ -561,3 +561,31 @@ package xmpp
 //@     invariant [C05.comp.once]  count(Routed) - old(count(Routed)) == newReads() + (count(StreamErrRead) - old(count(StreamErrRead))) && newReads() >= 0
 //@     invariant [C05.comp.order] newReads() > 0 ==> (count(Routed) > 0 && last(Routed, 1) == last(PacketRead) && last(Routed, 0) == iface(c))
 //@     invariant [C05.comp.error] count(ErrorHandler) - old(count(ErrorHandler)) == count(StreamErrRead) - old(count(StreamErrRead))
+
+// ---------------------------------------------------------------------------
+// C04: TLS
+//
+//@ event TLSHandshake(c Ref, name Str, skip Bool, ok Bool)
+//@ event HostVerified(c Ref, host Str, ok Bool)
+//@ pred wantedServerName(t) := ite(t.Config.TLSConfig != nil && t.Config.TLSConfig.ServerName != "", t.Config.TLSConfig.ServerName, t.Config.Domain)
+//
+//@ func (*xmpp.XMPPTransport).IsSecure(t) (b)
+//@   requires t != nil
+//@   ensures [C04.issecure.tcp] b == t.isSecure
+//@ func (xmpp.WebsocketTransport).IsSecure(t) (b)
+//@   ensures [C04.issecure.ws] b == prefixof("wss:", t.Config.Address)
+//@ func (xmpp.WebsocketTransport).StartTLS(t) (err)
+//@   ensures [C04.starttls.ws] err != nil
+//
+//@ func (*xmpp.XMPPTransport).StartTLS(t) (err)
+//@   requires t != nil && !t.isSecure
+//@   ensures [C04.tls.iff]    (err == nil) == t.isSecure
+//@   ensures [C04.tls.verify] t.isSecure ==> count(TLSHandshake) == old(count(TLSHandshake)) + 1 && last(TLSHandshake, 3) && last(TLSHandshake, 1) == old(wantedServerName(t)) && (last(TLSHandshake, 2) || (count(HostVerified) == old(count(HostVerified)) + 1 && last(HostVerified, 0) == last(TLSHandshake, 0) && last(HostVerified, 1) == t.Config.Domain && last(HostVerified, 2) && atlast(TLSHandshake) < atlast(HostVerified)))
+//@   ensures [C04.tls.skip]   t.isSecure ==> last(TLSHandshake, 2) == (old(t.Config.TLSConfig) != nil && old(t.Config.TLSConfig.InsecureSkipVerify))
+//@   ensures [C04.tls.conn]   t.isSecure ==> typeof(t.conn) == *tls.Conn && t.conn.(*tls.Conn) == last(TLSHandshake, 0)
+//@   ensures t.Config == old(t.Config)
+//@   assigns t.TLSConfig, t.isSecure, t.conn, t.readWriter, t.decoder
+//@   emits TLSHandshake, HostVerified
+//
+// Package-level error values are created by package initialisation and never reassigned (scanned).
+//@ globalinv ErrTLSNotSupported != nil && ErrTransportProtocolNotSupported != nil && ErrCanOnlySendGetOrSetIq != nil
